@@ -106,4 +106,17 @@ CHECKS["C19"] = {
     "engine": "tlc+vh",
 }
 
+CHECKS["C12"] = {
+    "category": "model_checking",
+    "text": "spec/Half.tla transcribes IEEE 754 binary16/32/64 widening and round-to-nearest-even narrowing on bit fields; TLC enumerates all "
+            "65536 half patterns and every rounding class of the narrowing and checks invariants that do not share the operators' code path (exact "
+            "on the image of widening, bracketing by the neighbouring halves, monotonicity, overflow to infinity, NaN to NaN). Every enumerated case "
+            "is replayed on Encoder::f16/f32 and Decoder::f16/f32/f64; recorded encode/read-back calls over exponent boundaries, subnormals, "
+            "neighbours of every half and random f32/f64 patterns are validated by TLC.",
+    "design_ref": "DESIGN.md section 6, C12 and Appendix A.8",
+    "note": "Trusted: TLC, the TLA+ transcription of IEEE 754. NaN results are any NaN. The full 2^32 f32 sweep is not run through TLC.",
+    "technique": "TLA+ spec of IEEE 754 half conversions (Half/Floats) + TLC enumeration with cross-check invariants + replay + trace validation",
+    "engine": "tlc+vh",
+}
+
 NOT_YET = "check not built yet in this round (planned in DESIGN.md section 10); not claimed until it exists"
